@@ -55,15 +55,15 @@ func init() {
 	})
 	property(&Property{
 		ID:          "C08",
-		Rules:       []string{"LIMIT-SRC", "LIMIT-STRICT", "LIMIT-IMPL", "LIMIT-DEFAULTS", "SIGNCONV", "OPTS-RO", "COMPRESS-FLAG", "POOL-RESET", "LIMIT-RETURN-BOUND", "LIMIT-DIRECTION", "LIMIT-AFTER-DECOMPRESS", "DECODEDLEN-IS-A-BOUND"},
-		Decides:     "Decides that every way request bytes enter memory on a request-reachable path is bounded by the configured receive limit before use on every protocol (including after decompression and on WebSocket), that refusing comparisons are strict (a message exactly at the limit is accepted), that every in-repo stream codec honours its limit, that wire lengths cannot wrap through a sign-changing conversion, and that the limit in force is the configured one. Also: a LimitReader in front of a length check lets limit+1 bytes through; the gRPC send limit is compared with the encoded, not the compressed size. Also: a StreamCodec reports no length above the limit next to an error either. Also: stale bytes of a pooled (de)compression buffer cannot count against the limit (Reset after Get, or Reset before every Put). Also: the length an in-repo ReadNext returns is bounded by the limit as a value (the compared counter is not advanced between the comparison and the return). Also: refusals on send paths use the send limit and refusals on receive paths the receive limit. Also: whether a refusal on the wire length of a gRPC frame spares compressed frames (it does not: known finding D51).",
+		Rules:       []string{"LIMIT-SRC", "LIMIT-STRICT", "LIMIT-IMPL", "LIMIT-DEFAULTS", "SIGNCONV", "OPTS-RO", "COMPRESS-FLAG", "POOL-RESET", "LIMIT-RETURN-BOUND", "LIMIT-DIRECTION", "LIMIT-AFTER-DECOMPRESS", "DECODEDLEN-IS-A-BOUND", "LIMIT-NONPOS"},
+		Decides:     "Decides that every way request bytes enter memory on a request-reachable path is bounded by the configured receive limit before use on every protocol (including after decompression and on WebSocket), that refusing comparisons are strict (a message exactly at the limit is accepted), that every in-repo stream codec honours its limit, that wire lengths cannot wrap through a sign-changing conversion, and that the limit in force is the configured one. Also: a LimitReader in front of a length check lets limit+1 bytes through; the gRPC send limit is compared with the encoded, not the compressed size. Also: a StreamCodec reports no length above the limit next to an error either. Also: stale bytes of a pooled (de)compression buffer cannot count against the limit (Reset after Get, or Reset before every Put). Also: the length an in-repo ReadNext returns is bounded by the limit as a value (the compared counter is not advanced between the comparison and the return). Also: refusals on send paths use the send limit and refusals on receive paths the receive limit. Also: whether a refusal on the wire length of a gRPC frame spares compressed frames (it does not: known finding D51). LIMIT-NONPOS: a configured limit of zero or less still refuses larger messages in every ReadNext.",
 		NotDecided:  "numeric boundary behaviour of library readers, memory use, user-supplied StreamCodecs.",
 		Assumptions: commonAssumptions,
 	})
 	property(&Property{
 		ID:          "C09",
-		Rules:       []string{"PANIC-REACH-SERVE", "COMMAOK-SERVE", "ASSERT-CHECKED", "TABLE-GUARD", "SIGNCONV", "OFFSET-BASE", "FIELDPATH-SINGULAR", "TOKEN-KINDS", "NIL-MAP-WRITE", "STATS-PURE", "SLICE-CAP", "NILABLE-FIELD", "FD-LOCAL", "CODEC-LOOKUP-TOTAL", "NIL-STATE", "B64-BUF", "SUB-LOW", "PICK-CURRENT", "HANDLERS-PRESENCE", "JOIN-EXIT", "LOOP-PROGRESS", "SCAN-INDEX-GUARDED", "SCAN-PROGRESS", "CONST-INDEX", "DEFAULT-SCALAR-ONLY"},
-		Decides:     "Decides the absence, on every call-graph path from the request entry points, of the enumerated crash constructs: explicit panic, use of a comma-ok result where ok may be false, unjustified single-result type assertions, off-by-one table guards, sign-changing conversions of wire lengths, index-relative-to-wrong-base arithmetic, field paths walking through repeated/map/scalar fields, pattern tokens the matcher panics on, writes through nil maps, stats-only slicing. Also: the state snapshot (nil before the first registration) is only used nil-safely; x[a-b:] needs a >= b; base64 destinations are sized by the decoding encoding. Also: the handler pick indexes a non-empty list (no rand.Intn(0)); readers of the handler table do not take a present-but-empty entry for a registered method. Also: serveGRPC's join of the stream's goroutines cannot wait on a body it has not closed; growcap's fractional loop cannot be entered where its increment is 0. Also: input-consuming loops on request paths shorten their input strictly on every way round. Also: FieldDescriptor.Default() is only used for singular scalar fields.",
+		Rules:       []string{"PANIC-REACH-SERVE", "COMMAOK-SERVE", "ASSERT-CHECKED", "TABLE-GUARD", "SIGNCONV", "OFFSET-BASE", "FIELDPATH-SINGULAR", "TOKEN-KINDS", "NIL-MAP-WRITE", "STATS-PURE", "SLICE-CAP", "NILABLE-FIELD", "FD-LOCAL", "CODEC-LOOKUP-TOTAL", "NIL-STATE", "B64-BUF", "SUB-LOW", "PICK-CURRENT", "HANDLERS-PRESENCE", "JOIN-EXIT", "LOOP-PROGRESS", "SCAN-INDEX-GUARDED", "SCAN-PROGRESS", "CONST-INDEX", "DEFAULT-SCALAR-ONLY", "LIMIT-NONPOS"},
+		Decides:     "Decides the absence, on every call-graph path from the request entry points, of the enumerated crash constructs: explicit panic, use of a comma-ok result where ok may be false, unjustified single-result type assertions, off-by-one table guards, sign-changing conversions of wire lengths, index-relative-to-wrong-base arithmetic, field paths walking through repeated/map/scalar fields, pattern tokens the matcher panics on, writes through nil maps, stats-only slicing. Also: the state snapshot (nil before the first registration) is only used nil-safely; x[a-b:] needs a >= b; base64 destinations are sized by the decoding encoding. Also: the handler pick indexes a non-empty list (no rand.Intn(0)); readers of the handler table do not take a present-but-empty entry for a registered method. Also: serveGRPC's join of the stream's goroutines cannot wait on a body it has not closed; growcap's fractional loop cannot be entered where its increment is 0. Also: input-consuming loops on request paths shorten their input strictly on every way round. Also: FieldDescriptor.Default() is only used for singular scalar fields. LIMIT-NONPOS: no ReadNext implementation switches its size check off for a limit of zero or less (an attacker-chosen length prefix would reach make()).",
 		NotDecided:  "general slice/index arithmetic, nil dereferences beyond the comma-ok class, termination, resource exhaustion, panics inside dependencies beyond the encoded contracts.",
 		Assumptions: commonAssumptions,
 	})
